@@ -227,6 +227,9 @@ class Life:
         Eg = [self.meaning(i, 'gas', T) for i in range(n)]
         ev = {'ev': 'eval', 'ok': True, 'fin': True, 'T': to_dec(T), 'dE': [to_dec(x) for x in dE],
               'Es': [to_dec(x) for x in Es], 'Eg': [to_dec(x) for x in Eg],
+              'ndE': [isinstance(g['rx'], float) for g in self.given],
+              'nEs': [isinstance(g['surf'], float) for g in self.given],
+              'nEg': [isinstance(g['gas'], float) for g in self.given],
               'tconst': all(_tconst(t) for t in self.terms), 'units': u, 'Ru': to_dec(c.R(u + '/K')),
               'oRT': [], 'zero': [], 'val': []}
         info = {'T': T, 'dE': dE, 'Es': Es, 'Eg': Eg}
@@ -371,16 +374,21 @@ def execute(case):
         def compare(step, u):
             if expect is None or expect[step] is None:
                 return
-            n, d = expect[step]
+            (n, d), (nn, nd) = expect[step]
             if GRID % d:
                 raise core.MachineryError('expected value %d/%d is not on the 2^-20 grid' % (n, d))
             want = n * (GRID // d)
-            if u is None or not core.finite(u) or _grid(u) != want:
-                mism.append({'step': step, 'op': (['construct'] + [o[0] for o in case['ops']])[step],
-                             'expected_kcal': n / d, 'got_kcal': u})
+            op = (['construct'] + [o[0] for o in case['ops']])[step]
+            if u is None or not core.finite(u):
+                mism.append({'step': step, 'op': op, 'expected_kcal': n / d, 'got_kcal': u})
+            elif _grid(u) != want:
+                # the verdict (ReplayState or the known table drift) is named by the trace specification
+                life.log({'ev': 'replay', 'got': to_dec(u), 'want': core.to_dec_exact(n / d),
+                          'wantnum': core.to_dec_exact(nn / nd)},
+                         {'step': step, 'op': op, 'expected_kcal': n / d, 'from_numbers_kcal': nn / nd, 'got_kcal': u})
         if not life.construct():
             if expect is not None:
-                mism.append({'step': 0, 'op': 'construct', 'expected_kcal': expect[0][0] / expect[0][1],
+                mism.append({'step': 0, 'op': 'construct', 'expected_kcal': expect[0][0][0] / expect[0][0][1],
                              'got_kcal': None, 'raised': life.info[-1]})
             return life.events, mism, life.info
         u = life.evaluate(case['T'])
@@ -393,7 +401,7 @@ def execute(case):
             elif op[0] == 'roundtrip':
                 if not life.roundtrip(op[1] if len(op) > 1 else 'json'):
                     if expect is not None and expect[step] is not None:
-                        mism.append({'step': step, 'op': 'roundtrip', 'expected_kcal': expect[step][0] / expect[step][1],
+                        mism.append({'step': step, 'op': 'roundtrip', 'expected_kcal': expect[step][0][0] / expect[step][0][1],
                                      'got_kcal': None, 'raised': life.info[-1]})
                     break
                 u = life.evaluate(life.T)
@@ -402,8 +410,8 @@ def execute(case):
                     break
                 u = life.evaluate(life.T)
             compare(step, u)
-        if life.kind == 'ext' and case['ops'] and life.events[-1]['ev'] == 'eval' and life.events[-1]['ok'] \
-                and life.events[-1]['fin']:
+        last = next((e for e in reversed(life.events) if e['ev'] != 'replay'), None)
+        if life.kind == 'ext' and case['ops'] and last is not None and last['ev'] == 'eval' and last['ok'] and last['fin']:
             life.sum_event()
         return life.events, mism, life.info
     except core.MachineryError:
@@ -454,7 +462,7 @@ def _tlc_case(c, i):
     # construct + evaluate, evaluate at the other temperature, JSON round trip + evaluate: the relation
     # requires the same energy after each (TIndependent, RoundTripKeeps of the design model)
     case['ops'] = [['eval', other], ['roundtrip', 'json' if i % 3 else 'dict']]
-    case['expect'] = [c['U'], c['U'], c['U']]
+    case['expect'] = [[c['U'], c['Unum']]] * 3
     case['src'] = 'tlc-case'
     case['units'] = UNITS[i % len(UNITS)]
     case['arr'] = bool(i % 2)
@@ -464,7 +472,7 @@ def _tlc_case(c, i):
 def _beh_case(h, i):
     first = h[0]
     case = _obj_to_case(first['arg'], first['T'])
-    ops, expect = [], [first['U']]
+    ops, expect = [], [[first['U'], first['Unum']]]
     for rec in h[1:]:
         op, arg = rec['op'], rec['arg']
         if op == 'eval':
@@ -483,7 +491,7 @@ def _beh_case(h, i):
             raise core.MachineryError('unknown op in behaviour: %r' % (op,))
         if not rec['ok']:
             raise core.MachineryError('the required variant never raises: %r' % (rec,))
-        expect.append(rec['U'])
+        expect.append([rec['U'], rec['Unum']])
     case.update({'ops': ops, 'expect': expect, 'src': 'tlc-beh', 'units': UNITS[i % len(UNITS)],
                  'arr': bool(i % 2)})
     return case
@@ -585,8 +593,14 @@ def _tags(case, ev, info):
         tags['notes'] = case.get('notes') is not None
     if info and 'exc' in info:
         tags['exc'] = info['exc']
-        if "'NoneType' and 'str'" in info.get('msg', ''):
+        msg = info.get('msg', '')
+        if "'NoneType' and 'str'" in msg:
             tags['why'] = 'unnamed_species'
+        elif case['kind'] == 'ext' and ("object has no attribute 'slope'" in msg
+                                        or 'Object of type ExtendedLSR is not JSON serializable' in msg):
+            tags['why'] = 'ext_not_encodable'
+        elif case['kind'] == 'ext' and "unexpected keyword argument 'notes'" in msg:
+            tags['why'] = 'ext_notes_kwarg'
     return tags
 
 
